@@ -45,6 +45,7 @@ type wt struct {
 	fname  string
 	nloop  int
 	resTyp string // result type of the function being translated (loops return Option resTyp)
+	failT  string // the term an error return translates to ("none", or "false" for error-only functions)
 	ret    func(t *wt, x *ast.ReturnStmt, ind string) string
 }
 
@@ -107,6 +108,7 @@ var wcalls = map[string]wcall{
 	"lowBits":                   {"lowBits", []string{"Int"}, "UInt64", false},
 	"rotateLowEntropyMask":      {"rotateLowEntropyMask", []string{"UInt64", "Int", "Int"}, "UInt64", false},
 	"isValidLowEntropyRotation": {"Mieru.Gen.Arith.isValidLowEntropyRotation", []string{"Int"}, "Bool", false},
+	"isLowEntropyProtocol":      {"Mieru.Gen.Arith.isLowEntropyProtocol", []string{"Int"}, "Bool", false},
 }
 
 // expr translates an expression; want is the type an untyped constant should take ("" = unknown).
@@ -222,7 +224,7 @@ func (t *wt) expr(e ast.Expr, want string) (string, string) {
 			}
 			t.fail(e, "conversion "+from+" → "+ty)
 		}
-		if name == "len" && len(x.Args) == 1 {
+		if (name == "len" && len(x.Args) == 1) || len(x.Args) == 0 {
 			if v, ok := t.env[t.key(x)]; ok {
 				return v.lean, v.typ
 			}
@@ -351,6 +353,22 @@ func (t *wt) block(ss []ast.Stmt, ind string, k func(ind string) string) string 
 		return t.assign(x, rest, ind, k)
 	case *ast.IfStmt:
 		pre := ""
+		if as, ok := x.Init.(*ast.AssignStmt); ok && len(as.Lhs) == 2 && len(as.Rhs) == 1 {
+			// if _, err := f(args); err != nil { return err }
+			call, ok := as.Rhs[0].(*ast.CallExpr)
+			be, ok2 := x.Cond.(*ast.BinaryExpr)
+			if !ok || !ok2 || be.Op != token.NEQ || t.key(be.X) != "err" || !isErrNil(be.Y) || x.Else != nil || t.key(as.Lhs[0]) != "_" {
+				t.fail(s, "if-init with two results")
+			}
+			if t.key(call.Fun) != "validateLowEntropyCodecParams" {
+				t.fail(s, "if-init call "+t.key(call.Fun))
+			}
+			c := wcall{"validateLowEntropyCodecParams", []string{"Int", "UInt32", "Int"}, "", true}
+			sn := t.snap()
+			bodyT := t.block(x.Body.List, ind+"  ", func(string) string { panic(unsupported{"error branch falls through"}) })
+			t.restore(sn)
+			return fmt.Sprintf("%smatch %s with\n%s| none =>\n%s\n%s| some _ =>\n%s", ind, t.call(call, c), ind, bodyT, ind, next(ind+"  "))
+		}
 		if x.Init != nil {
 			as, ok := x.Init.(*ast.AssignStmt)
 			if !ok || len(as.Lhs) != 1 || as.Tok != token.DEFINE {
@@ -434,18 +452,18 @@ func (t *wt) assign(x *ast.AssignStmt, rest []ast.Stmt, ind string, k func(strin
 			a, _ := t.expr(call.Args[0], "Int")
 			t.bind(v+".sourceBytesPerChunk", v+"_sourceBytesPerChunk", "Int")
 			t.bind(v+".halfMaskOnes", v+"_halfMaskOnes", "Int")
-			return fmt.Sprintf("%smatch (Mieru.Gen.Arith.buildLowEntropyParams_sourceBytesPerChunk %s), (Mieru.Gen.Arith.buildLowEntropyParams_halfMaskOnes %s) with\n%s| some %s_sourceBytesPerChunk, some %s_halfMaskOnes =>\n%s\n%s| _, _ => none",
-				ind, a, a, ind, v, v, next(ind+"  "), ind)
+			return fmt.Sprintf("%smatch (Mieru.Gen.Arith.buildLowEntropyParams_sourceBytesPerChunk %s), (Mieru.Gen.Arith.buildLowEntropyParams_halfMaskOnes %s) with\n%s| some %s_sourceBytesPerChunk, some %s_halfMaskOnes =>\n%s\n%s| _, _ => %s",
+				ind, a, a, ind, v, v, next(ind+"  "), ind, t.failT)
 		case "validateLowEntropyCodecParams":
 			c := wcall{"validateLowEntropyCodecParams", []string{"Int", "UInt32", "Int"}, "", true}
 			t.bind(v+".sourceBytesPerChunk", v+"_sourceBytesPerChunk", "Int")
 			t.bind(v+".halfMaskOnes", v+"_halfMaskOnes", "Int")
-			return fmt.Sprintf("%smatch %s with\n%s| none => none\n%s| some (%s_sourceBytesPerChunk, %s_halfMaskOnes) =>\n%s",
-				ind, t.call(call, c), ind, ind, v, v, next(ind+"  "))
+			return fmt.Sprintf("%smatch %s with\n%s| none => %s\n%s| some (%s_sourceBytesPerChunk, %s_halfMaskOnes) =>\n%s",
+				ind, t.call(call, c), ind, t.failT, ind, v, v, next(ind+"  "))
 		case "lowEntropyEncodedPayloadLen":
 			c := wcall{"Mieru.Gen.Arith.lowEntropyEncodedPayloadLen", []string{"Int", "Int"}, "Int", true}
 			t.bind(v, v, "Int")
-			return fmt.Sprintf("%smatch %s with\n%s| none => none\n%s| some %s =>\n%s", ind, t.call(call, c), ind, ind, v, next(ind+"  "))
+			return fmt.Sprintf("%smatch %s with\n%s| none => %s\n%s| some %s =>\n%s", ind, t.call(call, c), ind, t.failT, ind, v, next(ind+"  "))
 		}
 		t.fail(x, "call "+t.key(call.Fun))
 	}
@@ -472,7 +490,7 @@ func (t *wt) assign(x *ast.AssignStmt, rest []ast.Stmt, ind string, k func(strin
 		if c, ok := wcalls[t.key(call.Fun)]; ok && c.opt {
 			term := t.call(call, c)
 			t.bind(n, n, c.res)
-			return fmt.Sprintf("%smatch %s with\n%s| none => none\n%s| some %s =>\n%s", ind, term, ind, ind, n, next(ind+"  "))
+			return fmt.Sprintf("%smatch %s with\n%s| none => %s\n%s| some %s =>\n%s", ind, term, ind, t.failT, ind, n, next(ind+"  "))
 		}
 	}
 	v, ty := t.expr(rhs, want)
@@ -555,6 +573,7 @@ func findFunc(f *ast.File, name string) *ast.FuncDecl {
 
 func (t *wt) reset(fname string, params []leParam) string {
 	t.env, t.order, t.fname, t.nloop = map[string]wvar{}, nil, fname, 0
+	t.failT = "none"
 	t.loops.Reset()
 	sig := []string{}
 	for _, p := range params {
@@ -590,15 +609,29 @@ func guard(name string, f func() string) (res string) {
 
 // whole translates a complete function. kind: "pure" (result type res) or "opt" (Option res; `return v, nil`
 // or, for a function with a loop, `return v` ↦ some v; any other return ↦ none).
-func (t *wt) whole(f *ast.File, rel, name, kind, res string) string {
+func (t *wt) whole(f *ast.File, rel, name, kind, res string, params ...leParam) string {
 	return guard(name, func() string {
 		fd := findFunc(f, name)
 		if fd == nil {
 			panic(unsupported{"function not found in " + rel})
 		}
-		sig := t.reset(name, t.goParams(fd))
+		var sig string
+		if params != nil {
+			sig = t.reset(name, params)
+		} else {
+			sig = t.reset(name, t.goParams(fd))
+		}
 		t.resTyp = res
+		if kind == "err" {
+			t.failT = "false"
+		}
 		t.ret = func(t *wt, x *ast.ReturnStmt, ind string) string {
+			if kind == "err" {
+				if len(x.Results) == 1 && isErrNil(x.Results[0]) {
+					return ind + "true"
+				}
+				return ind + "false"
+			}
 			if kind == "pure" {
 				v, ty := t.expr(x.Results[0], res)
 				if ty != res {
@@ -628,6 +661,9 @@ func (t *wt) whole(f *ast.File, rel, name, kind, res string) string {
 		rt := res
 		if kind == "opt" {
 			rt = "Option " + res
+		}
+		if kind == "err" {
+			rt = "Bool"
 		}
 		pos := t.fset.Position(fd.Pos())
 		return fmt.Sprintf("%s\n/-- %s:%d, %s -/\ndef %s %s : %s :=\n%s\n", t.loops.String(), rel, pos.Line, name, name, sig, rt, body)
@@ -718,6 +754,16 @@ func genLE(repo string, cs []constKV) string {
 		sb.WriteString(t.whole(f, leGo, "rotateLowEntropyMask", "pure", "UInt64"))
 		sb.WriteString(t.whole(f, leGo, "validateLowEntropyCodecParams", "opt", "(Int × Int)"))
 		sb.WriteString(genCodecSegments(t, leGo, f))
+	}
+	const metaGo = "pkg/protocol/metadata.go"
+	if f := parse(metaGo); f != nil {
+		// the fields of the *dataAckStruct argument become parameters (uint8/uint16 fields ↦ Int: they are only
+		// compared, converted to int, or reduced modulo a constant; the mask stays a 32-bit word)
+		t.consts["maxPDU"] = "Mieru.Gen.maxPDU"
+		sb.WriteString(t.whole(f, metaGo, "validateLowEntropyDataAckMetadata", "err", "Bool",
+			leParam{"das.Protocol()", "das_protocol", "Int"}, leParam{"das.lowEntropyMode", "das_lowEntropyMode", "Int"},
+			leParam{"das.lowEntropyMask", "das_lowEntropyMask", "UInt32"}, leParam{"das.lowEntropyMaskRotation", "das_lowEntropyMaskRotation", "Int"},
+			leParam{"das.payloadLen", "das_payloadLen", "Int"}, leParam{"das.extractedPayloadLen", "das_extractedPayloadLen", "Int"}))
 	}
 	sb.WriteString("\nend Mieru.Gen.LE\n")
 	// Lean names: Go's exported RepeatUint32 is referred to as repeatUint32 by the call table
